@@ -11,6 +11,7 @@ from sx.core import SymInt, SymReal, SymBool
 from sx.vals import SymSeq, ZStr
 
 DEFAULT_TIMEOUT_S = 40          # a case of this check takes about a second; a tree on which it takes longer than this is not explored further
+DEFAULT_QUERY_TIMEOUT_MS = 4000
 PROPERTY = "C10"
 LEVEL = "model_checking"
 CODE = ["yowsup/layers/protocol_messages/protocolentities/attributes/converter.py:AttributesConverter.* (all *_to_proto / proto_to_* / message_to_protobytes / protobytes_to_message)",
@@ -100,8 +101,54 @@ def _opt(which, name, make):
     return None
 
 
+def _recording(v, cls):
+    """constructor wrapper: remembers the values the composer handed over (the attribute object may keep something else)"""
+    import inspect
+    sig = inspect.signature(cls.__init__)
+
+    def make(*a, **kw):
+        obj = cls(*a, **kw)
+        given = dict(sig.bind(obj, *a, **kw).arguments)
+        given.pop("self", None)
+        v.ledger.append((obj, {k: x for k, x in given.items() if x is not None and (isinstance(x, core.Sym) or not hasattr(x, "__dict__"))}))
+        return obj
+    return make
+
+
+def composed_obs(prefix, v, sent, got):
+    """every scalar the composer handed to a constructor is what the same-named getter of the parsed object returns"""
+    where = {}
+
+    def walk(s, g, path):
+        if s is None or id(s) in where or not hasattr(s, "__dict__"):
+            return
+        where[id(s)] = (path, g)
+        for name, sv in vars(s).items():
+            if hasattr(sv, "__dict__") and not isinstance(sv, core.Sym) and type(sv).__module__.startswith("yowsup."):
+                walk(sv, getattr(g, name, None) if g is not None else None, path + "." + name.lstrip("_"))
+    walk(sent, got, prefix)
+    obs = []
+    for obj, given in getattr(v, "ledger", ()):
+        if id(obj) not in where:
+            continue
+        path, g = where[id(obj)]
+        if g is None:
+            continue
+        for name, val in given.items():
+            if isinstance(val, (list, tuple)) or not isinstance(getattr(type(g), name, None), property):
+                continue
+            obs.append(("%s.%s (as handed to the constructor)" % (path, name), val_eq(val, getattr(g, name))))
+    return obs
+
+
+def raw_values(v):
+    return {id(obj): given for obj, given in getattr(v, "ledger", ())}
+
+
 def build(ctx, v, kind, which, depth):
-    A = attr_mods()
+    if not hasattr(v, "ledger"):
+        v.ledger = []
+    A = {k: _recording(v, cls) for k, cls in attr_mods().items()}
     if not hasattr(v, "top_depth"):
         v.top_depth, v.top_context = depth, None
 
@@ -223,7 +270,7 @@ def h_roundtrip(ctx, kind, which, depth):
     sent = build(ctx, v, kind, which, depth)
     wire = c.message_to_protobytes(sent)
     got = c.protobytes_to_message(wire)
-    obs = attrs_obs(kind, sent, got)
+    obs = composed_obs(kind, v, sent, got) + attrs_obs(kind, sent, got)
     if getattr(v, "top_context", None) is not None:
         # the context the application handed to the constructors (the attribute object itself might have dropped it)
         obs += attrs_obs(kind + ".context_info(as composed)", v.top_context, find_context(got))
@@ -266,16 +313,16 @@ def h_peer_payload(ctx, kind, which, depth):
     v = V(ctx)
     model = build(ctx, v, kind, which, depth)
     if H.sym(ctx):
-        P = e2e_ref.message(C.Message(), model)
+        P = e2e_ref.message(C.Message(), model, raw_values(v))
         wire = P.SerializeToString()
     else:
         import yowsup.layers.protocol_messages.proto.e2e_pb2 as e2e
-        P = e2e_ref.message(e2e.Message(), model)
+        P = e2e_ref.message(e2e.Message(), model, raw_values(v))
         wire = P.SerializeToString()
     got = c.protobytes_to_message(wire)
     Q = C.Message() if H.sym(ctx) else e2e.Message()
     Q.ParseFromString(c.message_to_protobytes(got))
-    return attrs_obs("parsed:" + kind, model, got) + proto_obs("re-serialised:" + kind, P, Q)
+    return composed_obs("parsed:" + kind, v, model, got) + attrs_obs("parsed:" + kind, model, got) + proto_obs("re-serialised:" + kind, P, Q)
 
 
 def h_roundtrip_with_skdm(ctx, kind):
